@@ -217,6 +217,20 @@ class UnitBuild:
             out.append(('ensures', tag, '__CPROVER_ensures(%s)' % text))
         return out
 
+    def render_without_loop_contracts(self):
+        """the same unit with every loop contract removed (for the bounded fall-back, see verify()); None if it has none"""
+        if not any(c.get('loops') for n, c in self.cfg.get('contracts', {}).items() if n in self.ctx.fn_bodies):
+            return None, None
+        keep = self.lines_meta
+        self.lines_meta = {}
+        self.strip_loops = True
+        try:
+            txt = self.render()
+            return txt, self.lines_meta
+        finally:
+            self.strip_loops = False
+            self.lines_meta = keep
+
     def render(self):
         ctx = self.ctx
         cfg = self.cfg
@@ -275,14 +289,16 @@ class UnitBuild:
             emit(body)
         for cname, cc in cfg.get('contracts', {}).items():
             if cname not in ctx.fn_decls and not cc.get('optional'):
-                raise Unsupported('the spec has a contract for %s but no such function was lowered in this unit (have: %s)' % (cname, ', '.join(sorted(ctx.fn_decls))))
+                # a callee the code no longer calls: its contract is simply unused (the target's own postconditions decide whether
+                # the function still does its job); noted, because on the unchanged tree it would be a typo in the spec
+                self.notes.append('contract for %s unused: the lowered code of this unit does not call such a function' % cname)
         if self.target_cname not in cfg.get('contracts', {}) and not cfg.get('harness') and not cfg.get('draft'):
             raise Unsupported('target %s has no contract in the spec' % self.target_cname)
         emit(self.harness())
         return '\n'.join(L) + '\n'
 
     def inject_loops(self, cname, body):
-        loops = self.cfg.get('contracts', {}).get(cname, {}).get('loops', {})
+        loops = {} if getattr(self, 'strip_loops', False) else self.cfg.get('contracts', {}).get(cname, {}).get('loops', {})
 
         def rep(m):
             key = m.group(2)
@@ -511,6 +527,84 @@ CBMC_CHECKS = ['--bounds-check', '--pointer-check', '--pointer-overflow-check', 
                '--undefined-shift-check', '--div-by-zero-check']
 
 
+def _lowered_loops(b_gb, names):
+    """loops of the instrumented program that belong to lowered functions (not to the contract library)"""
+    rc, out, err, dt = run(['cbmc', '--show-loops', b_gb], 60)
+    res = []
+    for fn, idx in re.findall(r'^Loop ([A-Za-z0-9_$]+)\.(\d+):', out or '', re.M):
+        base = fn[:-len('_wrapped_for_contract_checking')] if fn.endswith('_wrapped_for_contract_checking') else fn
+        if base in names:
+            res.append('%s.%s' % (fn, idx))
+    return res
+
+
+def bounded_fallback(cfile_nl, workdir, cfg, target_cname, build):
+    """The unit with its loop contracts removed, every loop of the lowered code unwound K times with unwinding assertions.
+    Used only when the loop contracts no longer fit the code (do not compile, or fail): tells a contract that went stale
+    from code that breaks the function's postconditions.  Returns dict(ok, failed=[...], complete, n, k, reason)."""
+    k = int(cfg.get('fallback_unwind', 34))
+    base = os.path.join(workdir, os.path.splitext(os.path.basename(cfile_nl))[0])
+    a_gb, b_gb = base + '.a.gb', base + '.b.gb'
+    out = {'ok': False, 'failed': [], 'complete': False, 'n': 0, 'k': k, 'reason': None, 'time': 0.0}
+    rc, o, e, dt = run(['goto-cc', '--function', 'harness', cfile_nl, '-o', a_gb], 120); out['time'] += dt
+    if rc != 0:
+        out['reason'] = 'generated C does not compile even without loop contracts'; return out
+    ctx = build.ctx
+    cmd = ['goto-instrument', '--dfcc', 'harness', '--enforce-contract', target_cname]
+    for cname, mode in ctx.fn_mode.items():
+        if mode in ('contract', 'stub') and cname in ctx.fn_decls:
+            cmd += ['--replace-call-with-contract', cname]
+    rc, o, e, dt = run(cmd + [a_gb, b_gb], 300); out['time'] += dt
+    if rc != 0:
+        out['reason'] = 'goto-instrument failed on the loop-contract-free unit'; return out
+    names = set(getattr(ctx, 'fn_bodies_names', [])) | set(cfg.get('ghost_fns', {}).keys())
+    cmd = ['cbmc', b_gb] + CBMC_CHECKS + ['--json-ui', '--trace', '--unwinding-assertions']
+    given = dict(cfg.get('unwindset') or {})
+    for kk, v in given.items():
+        fn, _, idx = kk.rpartition('.')
+        cmd += ['--unwindset', '%s:%d' % (('%s_wrapped_for_contract_checking.%s' % (fn, idx)) if fn == target_cname else kk, v)]
+    given_names = set(given) | set('%s_wrapped_for_contract_checking.%s' % (kk.rpartition('.')[0], kk.rpartition('.')[2]) for kk in given)
+    for lp in _lowered_loops(b_gb, names):
+        if lp not in given_names:
+            cmd += ['--unwindset', '%s:%d' % (lp, k)]
+    if cfg.get('object_bits'):
+        cmd += ['--object-bits', str(cfg['object_bits'])]
+    if cfg.get('sat_solver', 'cadical') != 'minisat2':
+        cmd += ['--sat-solver', cfg.get('sat_solver', 'cadical')]
+    rc, o, e, dt = run(cmd, min(cfg.get('timeout', 600), 300), cfg.get('mem_gb', 8)); out['time'] += dt
+    out['cmd'] = ' '.join(cmd)
+    if rc == 'timeout':
+        out['reason'] = 'timeout'; return out
+    try:
+        results = None
+        for item in json.loads(o):
+            if isinstance(item, dict) and 'result' in item:
+                results = item['result']
+    except Exception:
+        results = None
+    if results is None:
+        out['reason'] = 'no result list'; return out
+    out['ok'] = True
+    out['complete'] = True
+    for r in results:
+        desc = r.get('description') or ''
+        if desc.startswith('canary'):
+            continue
+        out['n'] += 1
+        if r.get('status') != 'FAILURE':
+            continue
+        if '.unwind.' in (r.get('property') or '') or desc.startswith('unwinding assertion'):
+            out['complete'] = False
+            continue
+        sl = r.get('sourceLocation', {})
+        ob = {'name': r.get('property'), 'description': desc, 'status': 'FAILURE', 'file': sl.get('file'),
+              'line': int(sl['line']) if sl.get('line') else None, 'function': sl.get('function')}
+        if r.get('trace'):
+            ob['trace'] = compact_trace(r['trace'])
+        out['failed'].append(ob)
+    return out
+
+
 def verify(cfile, workdir, cfg, target_cname, build):
     """returns dict(status, obligations=[...], log, times)"""
     base = os.path.join(workdir, os.path.splitext(os.path.basename(cfile))[0])
@@ -520,8 +614,21 @@ def verify(cfile, workdir, cfg, target_cname, build):
     res['cmds'].append(' '.join(cmd))
     rc, out, err, dt = run(cmd, 120)
     res['times']['goto-cc'] = dt
+    cfile_nl = cfile[:-2] + '.noloops.c'
     if rc != 0:
         res['reason'] = 'goto-cc failed (generated C does not compile: lowering or contract text broken)\n' + (out + err)[-3000:]
+        if os.path.exists(cfile_nl) and 'loop_invariant' in (out + err) + open(cfile).read():
+            fb = bounded_fallback(cfile_nl, workdir, cfg, target_cname, build)
+            res['times']['cbmc-fallback'] = fb['time']
+            if fb['ok'] and fb['failed']:
+                res['status'] = 'done'; res['obligations'] = fb['failed']; res['lines_key'] = 'lines_noloops'
+                res['triage'] = 'the loop contracts of the spec no longer compile against the code; the unit re-verified without them (loops unwound %d times) fails these obligations' % fb['k']
+                return res
+            if fb['ok'] and fb['complete']:
+                res['reason'] = ('the loop contracts of the spec no longer compile against the lowered code (loop rewritten?); re-verified without them, loops unwound %d times with '
+                                 'unwinding assertions: all %d obligations discharged -- bounded, so undecided, not a violation\n' % (fb['k'], fb['n'])) + res['reason']
+            else:
+                res['reason'] = 'bounded fall-back without loop contracts inconclusive (%s); ' % (fb.get('reason') or 'unwinding bound %d too small' % fb['k']) + res['reason']
         return res
     ctx = build.ctx
     cmd = ['goto-instrument', '--dfcc', 'harness']
@@ -657,6 +764,19 @@ def verify(cfile, workdir, cfg, target_cname, build):
             ob['trace'] = compact_trace(r['trace'])
         res['obligations'].append(ob)
     res['status'] = 'done'
+    failed = [o for o in res['obligations'] if o['status'] == 'FAILURE' and not (o.get('description') or '').startswith('canary')]
+    if failed and has_loops and os.path.exists(cfile_nl) and not cfg.get('no_fallback'):
+        # the unit has loop contracts and something fails: is it the code, or a loop contract that went stale (loop rewritten,
+        # invariant phrased over a temporary)?  Re-verify without loop contracts, loops unwound with unwinding assertions.
+        fb = bounded_fallback(cfile_nl, workdir, cfg, target_cname, build)
+        res['times']['cbmc-fallback'] = fb['time']
+        if fb['ok'] and fb['complete'] and not fb['failed']:
+            res['status'] = 'undecided'
+            res['reason'] = ('%d obligation(s) fail with the loop contracts of the spec (%s) but the same unit without loop contracts, loops unwound %d times with unwinding '
+                             'assertions, discharges all %d obligations: the loop contract no longer fits the code; bounded, so undecided, not a violation'
+                             % (len(failed), ', '.join(o['name'] for o in failed[:4]), fb['k'], fb['n']))
+        elif fb['ok'] and fb['failed']:
+            res['fallback_confirms'] = [o['name'] for o in fb['failed']][:8]
     return res
 
 
